@@ -93,15 +93,19 @@ def k_buildline(c):
 
 
 def k_envhash(c):
+    """EnvironmentVariables.hash: repr((operations in program order, sorted(unset_vars)))"""
+    import ast
     from mesonbuild.utils.core import EnvironmentVariables
     env = EnvironmentVariables()
     for op, k, v in c['ops']:
         getattr(env, op)(k, [v])
+    for k in c['unset']:
+        env.unset(k)
     h = Collect()
     env.hash(h)
-    items = list(env.get_env({}).items())
     out = h.b.decode('utf-8')
-    return f'envhash {len(items)}|{enc_list([k for k, _ in items])}|{enc_list([v for _, v in items])}', enc(out), out
+    hashed_unset = list(ast.literal_eval(out)[1])
+    return f'envhash {enc_list(list(env.unset_vars))}', enc_list(hashed_unset), out
 
 
 def k_cheader(c):
@@ -334,6 +338,22 @@ def k_depfile(c):
     deps = [list(df.depfile[k].deps) for k in keys]
     line = f'depfile {enc_list(keys)}|{";".join(enc_list(d) for d in deps)}|{enc(c["name"])}'
     return line, enc_list(out) + '#' + enc_list(out), out
+
+
+def k_formatreqs(c):
+    """real DependenciesHelper.add_version_reqs / format_reqs (version_reqs is a dict of sets)"""
+    from collections import defaultdict
+    from mesonbuild.modules.pkgconfig import DependenciesHelper
+    h = object.__new__(DependenciesHelper)
+    h.version_reqs = defaultdict(set)
+    for name, vs in c['vreqs']:
+        for v in vs:                      # one at a time and in bulk, in the given order
+            h.add_version_reqs(name, [v])
+        h.add_version_reqs(name, list(vs))
+    out = h.format_reqs(list(c['reqs']))
+    names = [n for n in h.version_reqs if h.version_reqs[n]]
+    line = f'formatreqs {enc_list(c["reqs"])}|{enc_list(names)}|{";".join(enc_list(list(h.version_reqs[n])) for n in names)}'
+    return line, enc(out), out
 
 
 def k_gnuarg(c):
